@@ -49,6 +49,16 @@ def canon_native(step, o):
     if op == 'g_roundtrip' and isinstance(o, dict) and isinstance(o.get('doc'), dict):
         o = dict(o)
         o['doc'] = {k: (sorted(v, key=key) if isinstance(v, list) else v) for k, v in o['doc'].items()}
+        # the order in which the serialiser visits the members decides the order of the rebuilt incoming halves
+        if isinstance(o.get('graph2'), list):
+            g2 = []
+            for nd in o['graph2']:
+                nd = dict(nd)
+                for lst in ('in', 'adj'):
+                    if isinstance(nd.get(lst), list):
+                        nd[lst] = sorted(nd[lst], key=key)
+                g2.append(nd)
+            o['graph2'] = g2
         return o
     return o
 
